@@ -381,6 +381,13 @@ def all_attributes(ck, aa):
     d = (ts.find(lambda n: n.get("k") == "decl") or [None])[0]
     tab = {const_int(k): const_str(v) for k, v in initlist_pairs(d["vars"][0].get("init"))} if d else {}
     wanttab = {0: "debug", 4: "info", 1: "warning", 2: "critical", 3: "fatal"}
+    if not tab:
+        # no constant table (a switch, an if-chain): the function is evaluated for the five types instead
+        from rules.oth import msgtype_tables_by_cases
+        tab = msgtype_tables_by_cases(F)[0]
+        if tab is None:
+            ck.ob("C13-O2", sitestr(ts), None, "qtMsgTypeToString is neither a constant table nor evaluable by cases", key="qtMsgTypeToString|table")
+            tab = wanttab
     ck.ob("C13-O2", sitestr(ts), tab == wanttab, "type names: %s" % tab if tab == wanttab else "type-name table %s differs from debug/info/warning/critical/fatal" % tab, key="qtMsgTypeToString|table")
     # accessors return their field
     for acc, fld in (("message", "m_message"), ("time", "m_time")):
